@@ -31,6 +31,7 @@ func TestMain(m *testing.M) {
 	pbt.RegisterReplay("group_ops", replayer(func(c groupCase) (string, error) { return c.Arch, checkGroup(c) }))
 	pbt.RegisterReplay("funcs", replayer(func(c funcCase) (string, error) { return c.Arch, checkFunc(c) }))
 	pbt.RegisterReplay("scalar_helpers", replayer(func(c scalarCase) (string, error) { return c.Arch, checkScalar(c) }))
+	pbt.RegisterReplay("group_constructed", replayer(func(c consCase) (string, error) { return c.Arch, checkConstructed(c) }))
 	pbt.RegisterReplay("tables", replayer(func(c tableCase) (string, error) { return c.Arch, checkTableEntry(c) }))
 	pbt.Main(m, "C08")
 }
